@@ -181,18 +181,31 @@ def audit_output(name, gfa, csv, nodes_in, segs_in, links_in, comp_nodes, with_s
     core.check(keys == sorted(keys), "%s: S lines are not in (BO,NO) order: %s", name, keys[:12])
     core.check(csv is not None, "%s: CSV missing", name)
     rows = ordergfa.parse_csv(csv)
-    body = [r for r in rows if r != ["Name", "Color", "SN", "SO", "BO", "NO"]]
-    core.check(len(rows) - len(body) >= 1, "%s: CSV has no header", name)
-    names = [r[0] for r in body]
+    core.check(rows and all(len(r) == len(rows[0]) for r in rows), "%s: ragged CSV", name)
+    header = rows[0]
+    col = {h.strip().lower(): i for i, h in enumerate(header)}
+    core.check("name" in col and "bo" in col and "no" in col, "%s: CSV header %s lacks Name/BO/NO columns", name, header)
+    body = [r for r in rows if r != header]
+    names = [r[col["name"]] for r in body]
     core.check(sorted(names) == sorted(comp_nodes), "%s: CSV lists %d rows for %d nodes (dups/missing: %s)", name, len(names),
                len(comp_nodes), sorted(set(names) ^ set(comp_nodes))[:4])
+    role_of = {}
     for r in body:
-        core.check(len(r) == 6, "%s: malformed CSV row %s", name, r)
-        n = r[0]
-        core.check((int(r[4]), int(r[5])) == bono[n], "%s: CSV BO/NO of %s = %s,%s but the GFA has %s", name, n, r[4], r[5], bono[n])
-        want_col = "orange" if bono[n][1] == 0 else "blue"
-        core.check(r[1] == want_col, "%s: CSV colour of %s is %s, expected %s (NO=%d)", name, n, r[1], want_col, bono[n][1])
-        core.check(r[2] == nodes_in[n]["sn"] and r[3] == str(nodes_in[n]["so"]), "%s: CSV SN/SO of %s wrong: %s", name, n, r)
+        n = r[col["name"]]
+        try:
+            got_bono = (int(r[col["bo"]]), int(r[col["no"]]))
+        except ValueError:
+            raise core.Violation("%s: CSV BO/NO of %s are not integers: %s" % (name, n, r))
+        core.check(got_bono == bono[n], "%s: CSV BO/NO of %s = %s but the GFA has %s", name, n, got_bono, bono[n])
+        # the role column (named Color: the file is meant for Bandage) must tell scaffold nodes from bubble nodes;
+        # which label stands for which role is not pinned
+        other = tuple(v for i, v in enumerate(r) if i not in (col["name"], col["bo"], col["no"], col.get("sn", -1), col.get("so", -1)))
+        role_of.setdefault(bono[n][1] == 0, set()).add(other)
+    for scaffold, labels in role_of.items():
+        core.check(len(labels) == 1, "%s: CSV gives %s nodes several role labels: %s", name,
+                   "scaffold" if scaffold else "bubble", sorted(labels))
+    if len(role_of) == 2:
+        core.check(role_of[True] != role_of[False], "%s: CSV gives scaffold and bubble nodes the same role label %s", name, role_of[True])
 
 
 def run_order_case(case):
